@@ -639,6 +639,12 @@ func (p *Pather) path(v ssa.Value) string {
 				return fmt.Sprintf("%s[%d]", base[:i], a+k)
 			}
 		}
+		if i, a, b, okC := trailingClosedSlice(base); okC {
+			// x[a:b][k] is x[a+k] (k inside the window; outside it the index panics)
+			if k, okK := ConstInt(x.Index); okK && k >= 0 && a+k < b {
+				return fmt.Sprintf("%s[%d]", base[:i], a+k)
+			}
+		}
 		return base + "[" + p.Path(x.Index) + "]"
 	case *ssa.Index:
 		return p.Path(x.X) + "[" + p.Path(x.Index) + "]"
@@ -827,6 +833,38 @@ func trailingOpenSlice(s string) int {
 		}
 	}
 	return i
+}
+
+// trailingClosedSlice recognises a path ending in a constant window [a:b] (or [:b]).
+func trailingClosedSlice(s string) (i int, a, b int64, ok bool) {
+	if !strings.HasSuffix(s, "]") {
+		return 0, 0, 0, false
+	}
+	i = strings.LastIndexByte(s, '[')
+	if i < 0 {
+		return 0, 0, 0, false
+	}
+	mid := s[i+1 : len(s)-1]
+	c := strings.IndexByte(mid, ':')
+	if c < 0 || c == len(mid)-1 {
+		return 0, 0, 0, false
+	}
+	num := func(t string) (int64, bool) {
+		if t == "" {
+			return 0, true
+		}
+		var v int64
+		for _, r := range t {
+			if r < '0' || r > '9' {
+				return 0, false
+			}
+			v = v*10 + int64(r-'0')
+		}
+		return v, true
+	}
+	a, okA := num(mid[:c])
+	b, okB := num(mid[c+1:])
+	return i, a, b, okA && okB
 }
 
 func allocName(a *ssa.Alloc) string {
